@@ -61,4 +61,35 @@ theorem devnull_never_stripped (ts : Bytes) (strip : Int) :
     ∃ t, parseFileLine (devNull ++ TAB :: ts) strip = .ok (devNull, t) := by
   exact Names.devnull_never_stripped ts strip
 
+/-- git, `-p0`: the names on the `rename from` / `rename to` / `copy from` / `copy to` lines are used as they are (with the
+    `a/` or `b/` the other header lines carry) — not reduced to their base name, which a strip count of `0 - 1` meant
+    before the fix.  `n` is any name that is not C-quoted. -/
+theorem git_name_p0 (n : Bytes) (p : Patch) (hq : n.head? ≠ some DQUOTE) :
+    parseGitExtendedInfo (str "rename from " ++ n) p 0
+      = .ok (true, { p with operation := .rename, oldPath := str "a/" ++ n }) ∧
+    parseGitExtendedInfo (str "rename to " ++ n) p 0
+      = .ok (true, { p with operation := .rename, newPath := str "b/" ++ n }) ∧
+    parseGitExtendedInfo (str "copy from " ++ n) p 0
+      = .ok (true, { p with operation := .copy, oldPath := str "a/" ++ n }) ∧
+    parseGitExtendedInfo (str "copy to " ++ n) p 0
+      = .ok (true, { p with operation := .copy, newPath := str "b/" ++ n }) :=
+  ⟨Names.git_rename_from_p0 n p hq, Names.git_rename_to_p0 n p hq, Names.git_copy_from_p0 n p hq,
+    Names.git_copy_to_p0 n p hq⟩
+
+/-- `-p0` leaves every name as it is -/
+theorem strip_zero (p : Bytes) : stripPath p 0 = p := Names.stripPath_zero p
+
+/-- a `diff --git a/X b/X` line names X, for every byte string X — also one that contains ` b/` itself (before the fix the
+    name ended at the first ` b/`).  No side condition: see `git_header_split_unique`. -/
+theorem git_header_same_name (x : Bytes) (strip : Int) :
+    parseGitHeaderName (str "a/" ++ x ++ str " b/" ++ x) strip = .ok (stripPath (str "a/" ++ x) strip) :=
+  Names.git_header_same_name x strip
+
+/-- why no earlier position can be taken for the split: a position where the text starts with `a/`, continues with ` b/`
+    and both halves name the same file is the middle of the text (so there is at most one) -/
+theorem git_header_split_unique (r : Bytes) (pos : Nat) (ha : (str "a/").isPrefixOf r = true)
+    (hb : (str " b/").isPrefixOf (r.drop pos) = true)
+    (heq : (r.take pos).drop 2 = r.drop (pos + 3)) : 2 * pos + 1 = r.length :=
+  Names.git_split_middle r pos ha hb heq
+
 end PatchModel.C12
